@@ -325,6 +325,12 @@ func runC16(c *ctx) {
 		// a second, forged tail after the real one
 		try("payload re-closed before a second separator", []byte(signed[:len(signed)-2]+c16Sep+sigText+"\"}\n"), true)
 		try("trailing garbage", []byte(signed+"x"), true)
+		// unsigned members smuggled into the signature object, after the signature
+		if end := strings.LastIndex(signed, "}"); end > 0 {
+			for _, extra := range []string{`,"value":"evil"`, `,"camliType":"claim","attribute":"x"`, `,"x":{}`, `, "camliSigner" : "sha224-00"`} {
+				try("extra member after the signature", []byte(signed[:end]+extra+signed[end:]), true)
+			}
+		}
 		try("white space in the payload", []byte(strings.Replace(signed, ",", ", ", 1)), true)
 		if len(signedDocs) > 1 {
 			// this document's payload with the previous document's signature
